@@ -189,6 +189,10 @@ class BaseCurve(Intface_BaseCurve):
             transweights = heavy.Operations.matrix_transformation(vectorb, vectorc)
             weights = np.dot(transweights, copyot.ctrlpoints)
             ctrlpts = np.dot(transctrlpts, copyse.ctrlpoints)
+            weights = [  # int / int would be a float
+                Fraction(int(wi)) if isinstance(wi, (int, np.integer)) else wi
+                for wi in weights
+            ]
             ctrlpts = [pti / wi for pti, wi in zip(ctrlpts, weights)]
             return self.__class__(vectorc, ctrlpts, weights)
 
